@@ -252,3 +252,15 @@ Theorem C01_stream_prefix_from_handshakes : forall hA hB rbA sbA mtuA rbB sbB mt
   (exists rest, concat (TcpRcvP.reads_run a0 ea) ++ rest = TcpSndP.written b0 eb).
 Proof. exact TcpEstP.stream_prefix_from_handshakes. Qed.
 Print Assumptions C01_stream_prefix_from_handshakes.
+
+(* a client's active open (Model/TcpEst.v active_established: the handshake model run on the
+   SYN-ACK, then transfer) and the listener's accepted connection (passive_established: what
+   accept.go builds from the SYN) are a pair of states the stream theorem starts from - for every
+   pair of initial sequence numbers, window fields and option sets *)
+Theorem C01_active_passive_conn :
+  forall issA issB wndA wndB oA oB skA skB rbA sbA linkMtuA iphdrA lrcvB sbB mtuB tA,
+  is_u32 issA -> is_u32 issB -> 1 <= TcpHs.so_mss oA -> 1 <= TcpHs.so_mss oB ->
+  TcpEst.active_established issA issB wndB oB skA rbA sbA linkMtuA iphdrA = Some tA ->
+  TcpNetP.conn_init issA issB tA (TcpEst.passive_established issB issA wndA oA skB lrcvB sbB mtuB).
+Proof. exact TcpEstP.active_passive_conn. Qed.
+Print Assumptions C01_active_passive_conn.
